@@ -21,11 +21,40 @@ theorem C20_cum_head (ℓ : List Rat) : (cumDist ℓ).head? = some 0 := by
 theorem C20_cum_mono (ℓ : List Rat) (h : ∀ x ∈ ℓ, 0 ≤ x) : List.Pairwise (· ≤ ·) (cumDist ℓ) := by
   rw [cumDist_eq]; exact cumsumFrom_sorted h 0
 
-/-- It ends at the centre line's length (the sum of the segment lengths); entry `j` is the arc length up to vertex `j`. -/
+/-- It ends at the sum of the segment-length parameters; entry `j` is the sum of the first `j` of them.  That these numbers
+    ARE the centre line's Euclidean segment lengths is the side condition `isEuclid c ℓ` (checked by the harness for the
+    lengths numpy computed, driver op `euclid`); `C20_euclid_unique` shows that under it `ℓ`, hence the whole cumulative
+    distance, is determined by the vertices alone, and `C20_cum_euclid` states the property's sentence under it. -/
 theorem C20_cum_last (ℓ : List Rat) : (cumDist ℓ).getLast? = some (sumRat ℓ) := cumDist_last ℓ
 
 theorem C20_cum_get (ℓ : List Rat) (j : Nat) (hj : j ≤ ℓ.length) : (cumDist ℓ)[j]? = some (prefixLen ℓ j) :=
   cumDist_get ℓ j hj
+
+/-- The Euclidean segment lengths of a polyline are unique: `isEuclid c ℓ` (one non-negative `ℓᵢ` per segment with
+    `ℓᵢ² = |cᵢ₊₁ − cᵢ|²`) determines `ℓ`. So "the centre line's length" `sumRat ℓ` is a function of the vertices. -/
+theorem C20_euclid_unique (c : List Pt) (ℓ ℓ' : List Rat) (h : isEuclid c ℓ = true) (h' : isEuclid c ℓ' = true) : ℓ = ℓ' :=
+  isEuclid_unique c ℓ ℓ' h h'
+
+/-- Distinct consecutive vertices ⇒ every Euclidean segment length is positive (no zero-length segment, no `0/0`). -/
+theorem C20_euclid_pos (c : List Pt) (ℓ : List Rat) (h : isEuclid c ℓ = true) (hd : DistinctConsec c) : ∀ x ∈ ℓ, 0 < x :=
+  isEuclid_pos c ℓ h hd
+
+/-- The property's first sentence with the lengths tied to the points: for the Euclidean segment lengths of the centre
+    line `c`, the cumulative distance has one entry per vertex, starts at 0, is non-decreasing, entry `j` is the sum of the
+    Euclidean lengths `√|cᵢ₊₁ − cᵢ|²` of the first `j` segments, and the last entry is the length of the centre line. -/
+theorem C20_cum_euclid (c : List Pt) (ℓ : List Rat) (h : isEuclid c ℓ = true) :
+    (cumDist ℓ).length = c.length ∧ (cumDist ℓ).head? = some 0 ∧ List.Pairwise (· ≤ ·) (cumDist ℓ)
+    ∧ (∀ j, j < c.length → (cumDist ℓ)[j]? = some (prefixLen ℓ j))
+    ∧ (cumDist ℓ).getLast? = some (sumRat ℓ)
+    ∧ ∀ i (hi : i < ℓ.length), 0 ≤ ℓ[i] ∧ ℓ[i] * ℓ[i] =
+        distSq (c[i]'(by have := isEuclid_length c ℓ h; omega)) (c[i + 1]'(by have := isEuclid_length c ℓ h; omega)) := by
+  have hlen := isEuclid_length c ℓ h
+  refine ⟨by rw [cumDist_length, hlen], C20_cum_head ℓ, C20_cum_mono ℓ (fun x hx => ?_), ?_, cumDist_last ℓ,
+    isEuclid_get c ℓ h⟩
+  · obtain ⟨i, hi, rfl⟩ := List.getElem_of_mem hx
+    exact (isEuclid_get c ℓ h i hi).1
+  · intro j hj
+    exact cumDist_get ℓ j (by omega)
 
 /-! ## (B) interpolate_position -/
 
@@ -39,10 +68,12 @@ theorem C20_blend_dist_sq (t : Rat) (a b : Pt) :
     ((blend t a b).1 - a.1) ^ 2 + ((blend t a b).2 - a.2) ^ 2 = t ^ 2 * ((b.1 - a.1) ^ 2 + (b.2 - a.2) ^ 2) := by
   simp only [blend]; ring
 
-/-- Main statement: for every lanelet whose centre segments have positive length (distinct consecutive vertices) and every
-    `0 ≤ s ≤ length` — interior, exactly at a vertex, `0` and the full length alike — `interpolate_position(s)` does not fail
-    and returns a segment id `i` and the three points blended with ONE parameter `t ∈ [0,1]` on segment `i` of the centre,
-    right and left polylines, where `arc length up to vertex i + t·ℓᵢ = s`, i.e. the centre point is the point at arc length `s`. -/
+/-- Algebraic core (for ARBITRARY positive length parameters `ℓ`; the Euclidean reading is `C20_interp_arclength`): for
+    every `0 ≤ s ≤ Σℓ` — interior, exactly at a vertex, `0` and the full length alike — `interpolate_position(s)` does not
+    fail and returns a segment id `i` and the three points blended with ONE parameter `t ∈ [0,1]` on segment `i` of the
+    centre, right and left polylines, where `Σ_{j<i} ℓⱼ + t·ℓᵢ = s`.  The segment id is the one the code returns
+    (`searchsorted` side 'left'): `i = 0` for `s = 0`, otherwise the segment with `prefix i < s ≤ prefix (i+1)` — at an
+    interior vertex the segment that ENDS there (`t = 1`); `C20_interp_window_unique` shows this pins `i`. -/
 theorem C20_interp_spec (c r l : List Pt) (ℓ : List Rat) (s : Rat)
     (hne : ℓ ≠ []) (hpos : ∀ x ∈ ℓ, 0 < x)
     (hc : c.length = ℓ.length + 1) (hr : r.length = ℓ.length + 1) (hl : l.length = ℓ.length + 1)
@@ -52,17 +83,17 @@ theorem C20_interp_spec (c r l : List Pt) (ℓ : List Rat) (s : Rat)
                                     blend t (r[i]'(by omega)) (r[i + 1]'(by omega)),
                                     blend t (l[i]'(by omega)) (l[i + 1]'(by omega)), (i : Int)⟩
       ∧ 0 ≤ t ∧ t ≤ 1 ∧ prefixLen ℓ i + t * ℓ[i] = s
-      ∧ prefixLen ℓ i ≤ s ∧ s ≤ prefixLen ℓ (i + 1) := by
+      ∧ ((s = 0 ∧ i = 0) ∨ prefixLen ℓ i < s) ∧ s ≤ prefixLen ℓ (i + 1) := by
   have hL : 0 < sumRat ℓ := sumRat_pos hne hpos
   have hn : 0 < ℓ.length := List.length_pos_iff.mpr hne
   -- the index the `searchsorted` + `while` prologue arrives at
   have key : ∃ k, k < ℓ.length ∧
       advance (cumDist ℓ) s ((cumDist ℓ).length + 2) ((searchsortedLeft s (cumDist ℓ) : Int) - 1) = .ok (k : Int)
-      ∧ prefixLen ℓ k ≤ s ∧ s ≤ prefixLen ℓ (k + 1) := by
+      ∧ ((s = 0 ∧ k = 0) ∨ prefixLen ℓ k < s) ∧ s ≤ prefixLen ℓ (k + 1) := by
     rcases eq_or_lt_of_le hs0 with h0 | hpos_s
     · -- s = 0 : searchsorted gives 0, idx = -1 wraps to the last entry, the loop moves on to 0
       subst h0
-      refine ⟨0, hn, ?_, by simp [prefixLen_zero], ?_⟩
+      refine ⟨0, hn, ?_, Or.inl ⟨rfl, rfl⟩, ?_⟩
       · have hss : searchsortedLeft 0 (cumDist ℓ) = 0 := by simp [cumDist_eq, searchsortedLeft]
         rw [hss, cumDist_length]
         have h1 : pyGet? (cumDist ℓ) (-1) = some (sumRat ℓ) := by rw [pyGet_neg_one, cumDist_last]
@@ -86,12 +117,16 @@ theorem C20_interp_spec (c r l : List Pt) (ℓ : List Rat) (s : Rat)
           rw [pyGet_nat, cumDist_get ℓ k (by omega)]
         have hle : prefixLen ℓ k ≤ s := by unfold prefixLen; linarith
         simp only [advance, h1, hle, if_true]
+      · exact Or.inr (by unfold prefixLen; linarith)
       · unfold prefixLen; linarith
-      · unfold prefixLen; linarith
-  obtain ⟨k, hk, hadv, hlo, hhi⟩ := key
+  obtain ⟨k, hk, hadv, hpin, hhi⟩ := key
+  have hlo : prefixLen ℓ k ≤ s := by
+    rcases hpin with ⟨h0, hk0⟩ | hlt
+    · subst hk0; rw [prefixLen_zero, h0]
+    · exact le_of_lt hlt
   have hstep := prefixLen_succ ℓ k hk
   have hlk : 0 < ℓ[k] := hpos ℓ[k] (by simp)
-  refine ⟨k, (s - prefixLen ℓ k) / ℓ[k], hk, ?_, ?_, ?_, ?_, hlo, hhi⟩
+  refine ⟨k, (s - prefixLen ℓ k) / ℓ[k], hk, ?_, ?_, ?_, ?_, hpin, hhi⟩
   · unfold interpolate
     have hlast : pyGet? (cumDist ℓ) (-1) = some (sumRat ℓ) := by rw [pyGet_neg_one, cumDist_last]
     have hd0 : pyGet? (cumDist ℓ) (k : Int) = some (prefixLen ℓ k) := by
@@ -118,6 +153,78 @@ theorem C20_interp_guard (c r l : List Pt) (ℓ : List Rat) (s : Rat) (h : s < 0
     rintro ⟨h1, h2⟩
     rcases h with h | h <;> linarith
   simp only [hlast, this, not_false_eq_true, if_true]
+
+/-- The half-open window `prefix i < s ≤ prefix (i+1)` determines the segment id (non-negative lengths suffice). -/
+theorem C20_interp_window_unique (ℓ : List Rat) (hnn : ∀ x ∈ ℓ, 0 ≤ x) (s : Rat) (i j : Nat)
+    (hi : i < ℓ.length) (hj : j < ℓ.length)
+    (h1 : prefixLen ℓ i < s ∧ s ≤ prefixLen ℓ (i + 1)) (h2 : prefixLen ℓ j < s ∧ s ≤ prefixLen ℓ (j + 1)) : i = j := by
+  rcases Nat.lt_trichotomy i j with h | h | h
+  · have := prefixLen_mono hnn (show i + 1 ≤ j by omega) (show j ≤ ℓ.length by omega); linarith
+  · exact h
+  · have := prefixLen_mono hnn (show j + 1 ≤ i by omega) (show i ≤ ℓ.length by omega); linarith
+
+/-- **The property's second sentence in Euclidean terms.**  Preconditions exactly as in the property: `c` is a polyline
+    with ≥ 2 vertices, consecutive vertices distinct, `ℓ` its Euclidean segment lengths (`isEuclid`), right / left polylines
+    with as many vertices, `0 ≤ s ≤ length`.  Then `interpolate_position(s)` succeeds and returns segment `i` (pinned as in
+    `C20_interp_spec`) and points `p, p_r, p_l` that are the blends with one common parameter `t ∈ [0,1]` on segment `i`
+    of the three polylines, where the centre point `p` lies on the segment `cᵢ cᵢ₊₁` at Euclidean distance
+    `s − (arc length up to vertex i)` from `cᵢ` and `(arc length up to vertex i+1) − s` from `cᵢ₊₁`:
+    the arc length of the centre line up to `p` is `s`. -/
+theorem C20_interp_arclength (c r l : List Pt) (ℓ : List Rat) (s : Rat)
+    (hE : isEuclid c ℓ = true) (hd : DistinctConsec c) (h2 : 2 ≤ c.length)
+    (hr : r.length = c.length) (hl : l.length = c.length) (hs0 : 0 ≤ s) (hs1 : s ≤ sumRat ℓ) :
+    ∃ (i : Nat) (t : Rat) (hi : i + 1 < c.length),
+      interpolate c r l ℓ s = .ok ⟨blend t (c[i]'(by omega)) (c[i + 1]'(by omega)),
+                                    blend t (r[i]'(by omega)) (r[i + 1]'(by omega)),
+                                    blend t (l[i]'(by omega)) (l[i + 1]'(by omega)), (i : Int)⟩
+      ∧ 0 ≤ t ∧ t ≤ 1
+      ∧ ((s = 0 ∧ i = 0) ∨ prefixLen ℓ i < s) ∧ s ≤ prefixLen ℓ (i + 1)
+      ∧ distSq (c[i]'(by omega)) (blend t (c[i]'(by omega)) (c[i + 1]'(by omega))) = (s - prefixLen ℓ i) ^ 2
+      ∧ distSq (blend t (c[i]'(by omega)) (c[i + 1]'(by omega))) (c[i + 1]'(by omega)) = (prefixLen ℓ (i + 1) - s) ^ 2 := by
+  have hlen := isEuclid_length c ℓ hE
+  have hpos := isEuclid_pos c ℓ hE hd
+  have hne : ℓ ≠ [] := by intro h0; simp [h0] at hlen; omega
+  obtain ⟨i, t, hi, hres, ht0, ht1, heq, hpin, hhi⟩ :=
+    C20_interp_spec c r l ℓ s hne hpos hlen (by omega) (by omega) hs0 hs1
+  obtain ⟨_, hsq⟩ := isEuclid_get c ℓ hE i hi
+  have hstep := prefixLen_succ ℓ i hi
+  refine ⟨i, t, by omega, hres, ht0, ht1, hpin, hhi, ?_, ?_⟩
+  · rw [distSq_blend_left, ← hsq]
+    have : t * ℓ[i] = s - prefixLen ℓ i := by linarith
+    rw [← this]; ring
+  · rw [distSq_blend_right, ← hsq]
+    have : (1 - t) * ℓ[i] = prefixLen ℓ (i + 1) - s := by rw [hstep]; linarith
+    rw [← this]; ring
+
+/-- Zero-length segments, under the property's precondition: distinct consecutive vertices make every Euclidean segment
+    length positive, so the `0/0` (NaN) branch of `interpolate_position` is unreachable for every admissible `s`. -/
+theorem C20_interp_no_nan (c r l : List Pt) (ℓ : List Rat) (s : Rat)
+    (hE : isEuclid c ℓ = true) (hd : DistinctConsec c) (h2 : 2 ≤ c.length)
+    (hr : r.length = c.length) (hl : l.length = c.length) (hs0 : 0 ≤ s) (hs1 : s ≤ sumRat ℓ) :
+    interpolate c r l ℓ s ≠ .error .zeroDiv := by
+  obtain ⟨i, t, hi, hres, _⟩ := C20_interp_arclength c r l ℓ s hE hd h2 hr hl hs0 hs1
+  rw [hres]; intro h; cases h
+
+/-- … and outside it: whenever the FIRST segment has length zero (a repeated first vertex) and the line has positive
+    total length, `interpolate_position(0)` divides `0/0` — numpy returns NaN coordinates (model value `.zeroDiv`).
+    This is why the property restricts to distinct consecutive vertices. -/
+theorem C20_interp_nan_zero_first_segment (c r l : List Pt) (rest : List Rat) (hsum : 0 < sumRat rest) :
+    interpolate c r l (0 :: rest) 0 = .error .zeroDiv := by
+  have htot : sumRat (0 :: rest) = sumRat rest := by simp [sumRat]
+  have hlast : pyGet? (cumDist (0 :: rest)) (-1) = some (sumRat rest) := by rw [pyGet_neg_one, cumDist_last, htot]
+  have hss : searchsortedLeft 0 (cumDist (0 :: rest)) = 0 := by simp [cumDist_eq, searchsortedLeft]
+  have h0 : pyGet? (cumDist (0 :: rest)) (0 : Int) = some 0 := by
+    have := pyGet_nat (cumDist (0 :: rest)) 0
+    simp only [Nat.cast_zero] at this
+    rw [this, cumDist_get _ 0 (by simp), prefixLen_zero]
+  have h1 : pyGet? (cumDist (0 :: rest)) ((0 : Int) + 1) = some 0 := by
+    have := pyGet_nat_succ (cumDist (0 :: rest)) 0
+    simp only [Nat.cast_zero] at this
+    rw [this, cumDist_get _ 1 (by simp), prefixLen_succ _ 0 (by simp), prefixLen_zero]
+    simp
+  unfold interpolate
+  simp only [hlast, le_of_lt hsum, le_refl, and_self, not_true_eq_false, if_false, hss, cumDist_length,
+    Nat.cast_zero, Int.zero_sub, advance, not_le.mpr hsum, show (-1 : Int) + 1 = 0 by omega, h0, if_true, h1, sub_self]
 
 /-! ## (C) merge_lanelets -/
 
@@ -188,6 +295,28 @@ theorem C20_merge_length (len : Pt → Pt → Rat) (pa qb : List Pt) (j : Pt) :
     ∧ (cumDist (segLens len (j :: qb))).getLast? = some (sumRat (segLens len (j :: qb))) := by
   refine ⟨?_, cumDist_last _, cumDist_last _⟩
   rw [cumDist_last, List.tail_cons, segLens_join, sumRat_append]
+
+/-- **Additivity for the merged LANELET** (the property's third sentence: "a successor that starts where it ends").
+    `b` is a successor of `a`, `b`'s left boundary starts where `a`'s ends (this is what the code tests) and — made explicit —
+    `b`'s centre line starts where `a`'s ends.  Then the merge succeeds, the merged centre line is the concatenation with
+    the joint vertex kept once, and for EVERY length function on point pairs (in particular the Euclidean one) the merged
+    lanelet's length `distance[-1]` is the sum of the two parts' lengths. -/
+theorem C20_merge_lanelet_length (a b : Lanelet) (jl jc : Pt) (len : Pt → Pt → Rat)
+    (hlink : b.id ∈ a.succ)
+    (hja : a.left.getLast? = some jl) (hjb : b.left.head? = some jl)
+    (hca : a.center.getLast? = some jc) (hcb : b.center.head? = some jc)
+    (hva : 2 ≤ a.left.length ∧ 2 ≤ a.center.length ∧ 2 ≤ a.right.length) :
+    ∃ m, mergeLanelets a b = .ok m
+      ∧ m.left = a.left ++ b.left.tail ∧ m.center = a.center ++ b.center.tail ∧ m.right = a.right ++ b.right.tail
+      ∧ (cumDist (segLens len a.center)).getLast? = some (sumRat (segLens len a.center))
+      ∧ (cumDist (segLens len b.center)).getLast? = some (sumRat (segLens len b.center))
+      ∧ (cumDist (segLens len m.center)).getLast? =
+          some (sumRat (segLens len a.center) + sumRat (segLens len b.center)) := by
+  refine ⟨_, C20_merge_spec a b jl hlink hja hjb hva, rfl, rfl, rfl, cumDist_last _, cumDist_last _, ?_⟩
+  obtain ⟨pa, hpa⟩ := List.getLast?_eq_some_iff.mp hca
+  obtain ⟨qb, hqb⟩ := List.head?_eq_some_iff.mp hcb
+  simp only [hpa, hqb]
+  exact (C20_merge_length len pa qb jc).1
 
 /-! ### Non-vacuity: the hypotheses are satisfiable and the model computes the expected values. -/
 
@@ -280,15 +409,114 @@ theorem C20_route_covers (nbr : Nat → List Nat) (len : Nat → Rat) (start : N
   obtain ⟨t, rfl⟩ := hpre
   simp
 
+/-- **Exact characterisation of the result set** (soundness + completeness in one): with no self-link at the start, a path
+    is returned IF AND ONLY IF it is a sound chain (starts at a direct neighbour, consecutive links, duplicate-free, avoids
+    the start, every proper prefix below the range) that `Stopped` for one of the code's reasons:
+    it is the extension whose accumulated length reached the range, or it is an entry (single direct neighbour, or still
+    below the range) whose last lanelet is a dead end or has SOME neighbour that is refused (already on the path / the start /
+    accumulated length at or beyond the range).  Nothing else is returned, and nothing the rule generates is dropped. -/
+theorem C20_route_characterisation (nbr : Nat → List Nat) (len : Nat → Rat) (start : Nat) (maxLen : Rat)
+    (hself : start ∉ nbr start) (fuel : Nat) (res : List Path)
+    (h : findInRange nbr len start maxLen fuel = some res) (q : Path) :
+    q ∈ res ↔ Sound nbr len start maxLen q ∧ Stopped nbr len start maxLen q :=
+  mem_result_iff hself fuel res h q
+
+/-- **Maximality for the code's rule**: every returned path ends where the code stops extending it — at a dead end, or with
+    accumulated length at or beyond the range, or at a lanelet one of whose neighbours is already on the path or is the
+    start.  (Not: "no admissible extension exists" — see `C20_witness_route_not_maximal`.) -/
+theorem C20_route_stopped (nbr : Nat → List Nat) (len : Nat → Rat) (start : Nat) (maxLen : Rat)
+    (hself : start ∉ nbr start) (fuel : Nat) (res : List Path)
+    (h : findInRange nbr len start maxLen fuel = some res) :
+    ∀ q ∈ res, ∃ x, q.getLast? = some x ∧
+      (nbr x = [] ∨ maxLen ≤ sumLen len q ∨ ∃ s ∈ nbr x, s ∈ q ∨ s = start) := by
+  intro q hq
+  obtain ⟨hs, hstop⟩ := (mem_result_iff hself fuel res h q).mp hq
+  rcases hstop with ⟨h2, hge⟩ | ⟨_, x, hx, hwhy⟩
+  · obtain ⟨hd, tl, rfl, _⟩ := hs.head
+    cases hgl : (hd :: tl).getLast? with
+    | none => simp at hgl
+    | some x => exact ⟨x, rfl, Or.inr (Or.inl hge)⟩
+  · refine ⟨x, hx, ?_⟩
+    rcases hwhy with hnil | ⟨s, hsx, h1 | h2 | h3⟩
+    · exact Or.inl hnil
+    · exact Or.inr (Or.inr ⟨s, hsx, Or.inl h1⟩)
+    · exact Or.inr (Or.inr ⟨s, hsx, Or.inr h2⟩)
+    · exact Or.inr (Or.inl h3)
+
+/-- **Completeness for maximal chains**: every sound chain that is an entry (a single direct neighbour, or accumulated length
+    below the range) and has NO admissible extension — its last lanelet is a dead end, or every neighbour is on the path or
+    the start — is returned. -/
+theorem C20_route_returns_maximal (nbr : Nat → List Nat) (len : Nat → Rat) (start : Nat) (maxLen : Rat)
+    (hself : start ∉ nbr start) (fuel : Nat) (res : List Path)
+    (h : findInRange nbr len start maxLen fuel = some res) (q : Path) (x : Nat)
+    (hs : Sound nbr len start maxLen q) (hentry : q.length = 1 ∨ sumLen len q < maxLen)
+    (hx : q.getLast? = some x) (hmax : ∀ s ∈ nbr x, s ∈ q ∨ s = start) : q ∈ res := by
+  refine (mem_result_iff hself fuel res h q).mpr ⟨hs, Or.inr ⟨hentry, x, hx, ?_⟩⟩
+  cases hn : nbr x with
+  | nil => exact Or.inl rfl
+  | cons s ss =>
+    have hs' : s ∈ nbr x := by rw [hn]; simp
+    right
+    refine ⟨s, by simp, ?_⟩
+    rcases hmax s hs' with h1 | h2
+    · exact Or.inl h1
+    · exact Or.inr (Or.inl h2)
+
+/-- **Completeness for every chain the rule generates**: every sound chain that is an entry (a single direct neighbour, or
+    accumulated length below the range) is a prefix of a returned path — coverage of the direct neighbours
+    (`C20_route_covers`) is the special case of length 1. -/
+theorem C20_route_complete_prefix (nbr : Nat → List Nat) (len : Nat → Rat) (start : Nat) (maxLen : Rat)
+    (hself : start ∉ nbr start) (fuel : Nat) (res : List Path)
+    (h : findInRange nbr len start maxLen fuel = some res) (p : Path)
+    (hs : Sound nbr len start maxLen p) (hentry : p.length = 1 ∨ sumLen len p < maxLen) :
+    ∃ q ∈ res, p <+: q := by
+  obtain ⟨hd, tl, hp, _⟩ := hs.head
+  have hpl : p.length = (p.length - 1) + 1 := by subst hp; simp
+  have hmem : (p, sumLen len p) ∈ genFrom nbr len start maxLen (initItems nbr len start) (p.length - 1) := by
+    refine (mem_gen_iff hself _ _).mpr ⟨⟨hs, rfl⟩, hpl, ?_⟩
+    rcases hentry with h1 | h1
+    · left; omega
+    · right; exact h1
+  unfold findInRange at h
+  exact loop_covers_gen fuel _ _ res h _ _ hmem
+
+/-- Witness: the strong reading of maximality ("a returned path has no admissible extension") is FALSE for the code.
+    Network 1 → 2, 2 → {1, 3}: from start 1 the code returns `[2]` (because successor 1 of lanelet 2 is the start,
+    lanelet.py:940-943 `paths_final.append(p); continue`) AND its admissible extension `[2, 3]`.  The property sentence
+    ("return only loop-free chains … that start at a direct successor, do not revisit the start lanelet, cover every direct
+    successor, and are extended only while the accumulated length is below the range") does not ask for maximality, so this
+    is outside the property; the harness replays it on the real code (corpus `net_witness_not_maximal.json`). -/
+theorem C20_witness_route_not_maximal :
+    ¬ (∀ res, findSuccessors [⟨1, [2], [], 1⟩, ⟨2, [1, 3], [1], 1⟩, ⟨3, [], [2], 1⟩] 1 10 = some res →
+        ∀ q ∈ res, ∀ s, (q ++ [s]) ∉ res) := by
+  intro h
+  have hr : findSuccessors [⟨1, [2], [], 1⟩, ⟨2, [1, 3], [1], 1⟩, ⟨3, [], [2], 1⟩] 1 10 = some [[2], [2, 3]] := by
+    decide +kernel
+  exact h _ hr [2] (by simp) 3 (by simp)
+
+/-- Witness: the result list may contain the same path more than once (`Nodup res` is FALSE in general): in the network
+    1 → 2, 2 → {3, 4} with unit lengths and range 1 the entry `[2]` has reached the range, and the code appends it once per
+    refused successor (:940-943), giving `[[2], [2]]`.  The property sentence speaks about which chains are returned, not
+    how often; the multiplicities are part of the model and compared exactly by the correspondence (corpus `net_witness_duplicates.json`). -/
+theorem C20_witness_route_duplicates :
+    ¬ (∀ res, findSuccessors [⟨1, [2], [3], 1⟩, ⟨2, [3, 4], [1], 1⟩, ⟨3, [1], [2], 1⟩, ⟨4, [], [2], 1⟩] 1 1 = some res →
+        res.Nodup) := by
+  intro h
+  have hr : findSuccessors [⟨1, [2], [3], 1⟩, ⟨2, [3, 4], [1], 1⟩, ⟨3, [1], [2], 1⟩, ⟨4, [], [2], 1⟩] 1 1
+      = some [[2], [2]] := by decide +kernel
+  have := h _ hr
+  simp at this
+
 /-- All four for a network given as data, successors: on every closed network without a self-successor at the start
     the loop with the failing lookups (`findSuccessorsR`, what the driver evaluates) returns normally, with the value of the
-    total loop, and the returned paths are sound, guarded and cover. -/
+    total loop, the returned paths are sound, guarded and cover, and the result set is exactly the stopped sound chains. -/
 theorem C20_successors (g : List Node) (start : Nat) (maxLen : Rat)
     (hc : closedNet g start = true) (hself : start ∉ succOf g start) :
     ∃ res, findSuccessorsR g start maxLen = .ok res ∧ findSuccessors g start maxLen = some res
       ∧ (∀ q ∈ res, (∃ hd tl, q = hd :: tl ∧ hd ∈ succOf g start) ∧ Linked (succOf g) q ∧ q.Nodup ∧ start ∉ q
           ∧ ∀ j, 0 < j → j < q.length → sumLen (lenOf g) (q.take j) < maxLen)
-      ∧ ∀ s ∈ succOf g start, ∃ q ∈ res, q.head? = some s := by
+      ∧ (∀ s ∈ succOf g start, ∃ q ∈ res, q.head? = some s)
+      ∧ ∀ q, q ∈ res ↔ Sound (succOf g) (lenOf g) start maxLen q ∧ Stopped (succOf g) (lenOf g) start maxLen q := by
   obtain ⟨res, hres⟩ := C20_route_terminates (succOf g) (lenOf g) start maxLen (ids g) (closed_succ hc) (fuelFor g)
     (by simp [ids, fuelFor])
   have hR : findSuccessorsR g start maxLen = .ok res := by
@@ -297,7 +525,7 @@ theorem C20_successors (g : List Node) (start : Nat) (maxLen : Rat)
     unfold findSuccessorsR
     rw [findR_eq hcl (closed_start hc), ← succOf_eq]
     rw [hres]
-  refine ⟨res, hR, hres, ?_, C20_route_covers _ _ _ _ _ res hres⟩
+  refine ⟨res, hR, hres, ?_, C20_route_covers _ _ _ _ _ res hres, C20_route_characterisation _ _ _ _ hself _ res hres⟩
   intro q hq
   obtain ⟨a, b, c, d⟩ := C20_route_sound _ _ _ _ hself _ res hres q hq
   exact ⟨a, b, c, d, C20_route_extend_guard _ _ _ _ hself _ res hres q hq⟩
@@ -308,7 +536,8 @@ theorem C20_predecessors (g : List Node) (start : Nat) (maxLen : Rat)
     ∃ res, findPredecessorsR g start maxLen = .ok res ∧ findPredecessors g start maxLen = some res
       ∧ (∀ q ∈ res, (∃ hd tl, q = hd :: tl ∧ hd ∈ predOf g start) ∧ Linked (predOf g) q ∧ q.Nodup ∧ start ∉ q
           ∧ ∀ j, 0 < j → j < q.length → sumLen (lenOf g) (q.take j) < maxLen)
-      ∧ ∀ s ∈ predOf g start, ∃ q ∈ res, q.head? = some s := by
+      ∧ (∀ s ∈ predOf g start, ∃ q ∈ res, q.head? = some s)
+      ∧ ∀ q, q ∈ res ↔ Sound (predOf g) (lenOf g) start maxLen q ∧ Stopped (predOf g) (lenOf g) start maxLen q := by
   obtain ⟨res, hres⟩ := C20_route_terminates (predOf g) (lenOf g) start maxLen (ids g) (closed_pred hc) (fuelFor g)
     (by simp [ids, fuelFor])
   have hR : findPredecessorsR g start maxLen = .ok res := by
@@ -317,7 +546,7 @@ theorem C20_predecessors (g : List Node) (start : Nat) (maxLen : Rat)
     unfold findPredecessorsR
     rw [findR_eq hcl (closed_start hc), ← predOf_eq]
     rw [hres]
-  refine ⟨res, hR, hres, ?_, C20_route_covers _ _ _ _ _ res hres⟩
+  refine ⟨res, hR, hres, ?_, C20_route_covers _ _ _ _ _ res hres, C20_route_characterisation _ _ _ _ hself _ res hres⟩
   intro q hq
   obtain ⟨a, b, c, d⟩ := C20_route_sound _ _ _ _ hself _ res hres q hq
   exact ⟨a, b, c, d, C20_route_extend_guard _ _ _ _ hself _ res hres q hq⟩
